@@ -28,6 +28,7 @@ SITES = {
     "blocks": "trees.trees.terminal_blocks",
     "tree_gap_degree": "trees.treeanalysis.gap_degree",
     "has_gaps": "trees.treeanalysis.has_gaps",
+    "gap_type": "trees.treeanalysis.gap_type",
     "three_way": "trees.treeoutput.brackets",
     "disco_order": "trees.treeanalysis.disco_order",
     "tasks": "trees.treeanalysis.GapDegree.run",
@@ -81,6 +82,27 @@ def c_has_gaps(ctx, spec):
         exp = tg.gap_degree_of_set(ys[id(n)]) > 0
         if bool(ta.has_gaps(n)) != exp:
             return ("has_gaps == %s for %s" % (exp, sorted(ys[id(n)])), ta.has_gaps(n))
+    return None
+
+
+def c_gap_type(ctx, spec):
+    """gap_type: 'none' for tokens; 'pass' if the node itself is discontinuous; else 'source' if some
+    constituent child is discontinuous; else 'none' (same statement as contracts/c16.py)"""
+    trees, ta = ctx.mod("trees"), ctx.mod("treeanalysis")
+    t = tg.build(spec, trees)
+    ys = tg.model(t)["yield"]
+    for n in _nodes(t):
+        if not n.children:
+            exp = "none"
+        elif tg.gap_degree_of_set(ys[id(n)]) > 0:
+            exp = "pass"
+        elif any(c.children and tg.gap_degree_of_set(ys[id(c)]) > 0 for c in n.children):
+            exp = "source"
+        else:
+            exp = "none"
+        got = ta.gap_type(n)
+        if got != exp:
+            return ("gap_type == %r for %s" % (exp, sorted(ys[id(n)])), got)
     return None
 
 
@@ -159,10 +181,10 @@ def c_tasks(ctx, specs):
 
 
 CLAUSES = {"node_gap_degree": c_node_gap_degree, "blocks": c_blocks,
-           "tree_gap_degree": c_tree_gap_degree, "has_gaps": c_has_gaps,
+           "tree_gap_degree": c_tree_gap_degree, "has_gaps": c_has_gaps, "gap_type": c_gap_type,
            "three_way": c_three_way, "disco_order": c_disco_order, "tasks": c_tasks}
 
-TREE_CLAUSES = ["node_gap_degree", "blocks", "tree_gap_degree", "has_gaps", "three_way", "disco_order"]
+TREE_CLAUSES = ["node_gap_degree", "blocks", "tree_gap_degree", "has_gaps", "gap_type", "three_way", "disco_order"]
 
 
 def _nt(spec):
